@@ -190,3 +190,4 @@ func VF_C19_ValidateOptions() {
 	r := o.RaiseToFloorSegmentSize(s)
 	vfAssert(r >= s && r >= f && (r == s || r == f), "RaiseToFloorSegmentSize is max(s, floor)")
 }
+
